@@ -542,6 +542,7 @@ func (c *tunnelChannel) recvLoop() {
 			c.close(err)
 			return
 		}
+		verifYield("cli.frame.dispatch", in.StreamId)
 		str.acceptServerFrame(in.Frame)
 	}
 }
